@@ -472,6 +472,13 @@ def run(repo: Repo, L: Ledger, tier: str):
                 L.fail("O9", f"{fn.short}:{h}", f"AGP file handle '{h}' is used outside format_agp: {norm(par)[:80]}", fn.loc(u))
             if okh:
                 L.ok("O9", f"{fn.short}:{h}", "AGP handle only handed to format_agp", fn.loc())
+    # a handle opened in place as the formatter's file argument (no variable in between): format_agp(asm, open_for_writing(<x>.agp))
+    for fn in repo.functions.values():
+        for c in repo.calls_in(fn):
+            if dotted(c.func) == fmt.name and len(c.args) >= 2 and isinstance(c.args[1], ast.Call):
+                if any(isinstance(x, ast.Constant) and isinstance(x.value, str) and x.value.lower().endswith(".agp") for x in ast.walk(c.args[1])) and _opens(repo, fn, c.args[1]) == "w":
+                    n_h += 1
+                    L.ok("O9", f"{fn.short}:<handle opened in the call>", "AGP handle only handed to format_agp", fn.loc(c))
     L.floor("O9", "AGP output handles", n_h, 1)
     L.assume("rows are Fragment or Gap objects with length >= 1")
 
